@@ -167,6 +167,8 @@ class Analyzer:
         """for each loop head: the head phis on which an exit condition of the loop depends"""
         fn = self.fn
         self.ctrl_phis = {}
+        self.loop_sig = {}
+        self.head_phis = {}
         defs = {}
         for bn, b in fn.blocks.items():
             for i in b.insts:
@@ -213,6 +215,15 @@ class Analyzer:
                     continue
                 roots.extend(self._uses(i))
             self.ctrl_phis[h] = ctrl
+            sig = []
+            for bn in fn.order:
+                if bn in body:
+                    for i in fn.blocks[bn].insts:
+                        d = self.mod.md.get(i.dbg) if i.dbg is not None else None
+                        sig.append((i.op, d.get("line") if d else None, i.ops[0] if i.op == "call" else None,
+                                    tuple(sorted(i.attrs)) if i.op in ("icmp", "fcmp") else None))
+            self.loop_sig[h] = T("loop", tuple(sig))
+            self.head_phis[h] = [i.res for i in fn.blocks[h].insts if i.op == "phi"]
 
     @staticmethod
     def _uses(inst):
@@ -866,8 +877,22 @@ class Analyzer:
                     s.iters[s.block] = it
                     if it > self.max_iter:
                         raise Broken("loop iteration budget exceeded at %%%s in %s" % (s.block, self.fn.name))
-                    parked.setdefault((s.block, s.prev, s.tag, it), []).append(s)
+                    parked.setdefault((s.block, s.prev, s.tag, it, s.loop_entry.get(s.block)), []).append(s)
                 else:
+                    if s.block in self.loop_heads and getattr(s, "arrived_head", None) != s.block:
+                        # first arrival at this loop: remember the values it starts from (they name the loop's results)
+                        try:
+                            if s.pc == 0:
+                                self.do_phis(s)
+                            ent = []
+                            for n_ in self.head_phis[s.block]:
+                                ent.append(self.vsig(s, s.env[n_])[:3] if n_ in s.env else None)
+                            s.loop_entry = dict(s.loop_entry)
+                            s.loop_entry[s.block] = (tuple(ent), tuple(sorted(
+                                (n_, self.vsig(s, s.env[n_])[:3]) for n_ in self.live_after_phi[s.block]
+                                if n_ in s.env and n_ not in self.head_phis[s.block] and isinstance(s.env[n_], (IntV, PtrV)))))
+                        except Infeasible:
+                            continue
                     active.append(s)
         res.stats["states"] = nstates
         return res
@@ -986,7 +1011,12 @@ class Analyzer:
             if isinstance(v0, IntV) and all(isinstance(v, IntV) for v in vs):
                 lo = min(s.rng(v)[0] for s, v in zip(sts, vs))
                 hi = max(s.rng(v)[1] for s, v in zip(sts, vs))
-                t = T("join", head, key[3], n, repr(key[2]))
+                if n in self.head_phis.get(head, ()):
+                    # result of `key[3]` iterations of this loop body started from the recorded entry values:
+                    # an uninterpreted function application, the same symbol in every program that inlines the loop
+                    t = T("loopval", self.loop_sig[head], key[3], self.head_phis[head].index(n), key[4])
+                else:
+                    t = T("join", head, key[3], n, repr(key[2]))
                 base.bounds[t] = (lo, hi)
                 env[n] = IntV(v0.w, Lin.sym(t), lo, hi, min(v.tz for v in vs))
             elif isinstance(v0, BoolV) and all(isinstance(v, BoolV) for v in vs):
@@ -1265,6 +1295,31 @@ class Analyzer:
             return a, b
         return a, b
 
+    def uwrap(self, st, i, a, b, op):
+        """record whether the operation, read as unsigned arithmetic, can exceed 2^w"""
+        w = a.w
+        Mw = 1 << w
+
+        def ur(v):
+            lo, hi = st.rng(v)
+            if lo >= 0:
+                return lo, hi
+            if hi < 0:
+                return lo + Mw, hi + Mw
+            return 0, Mw - 1
+        al, ah = ur(a)
+        if op == "shl":
+            k = b
+            lo, hi = al << k, ah << k
+        else:
+            bl, bh = ur(b)
+            if op == "add":
+                lo, hi = al + bl, ah + bh
+            else:
+                lo, hi = al * bl, ah * bh
+        if hi >= Mw:
+            st.notes.append(("uwrap", i.line, op, lo, hi))
+
     def x_add(self, st, i):
         a, b = self.ints(st, i)
         if isinstance(a, BoolV):
@@ -1275,6 +1330,8 @@ class Analyzer:
         if "nsw" in i.attrs:
             self.poison_check(st, i, exact, a.w)
         nn = st.rng(a)[0] >= 0 and st.rng(b)[0] >= 0
+        if "nsw" not in i.attrs:
+            self.uwrap(st, i, a, b, "add")
         st.env[i.res] = self.wrapfit(st, a.w, exact, "add", i, min(a.tz, b.tz), nn)
 
     def x_sub(self, st, i):
@@ -1364,6 +1421,8 @@ class Analyzer:
         if "nsw" in i.attrs:
             self.poison_check(st, i, l, a.w)
         nn = st.rng(a)[0] >= 0 and st.rng(b)[0] >= 0
+        if "nsw" not in i.attrs:
+            self.uwrap(st, i, a, b, "mul")
         st.env[i.res] = self.wrapfit(st, a.w, l, "mul", i, tz, nn)
 
     def shamt(self, st, b, w):
@@ -1383,6 +1442,8 @@ class Analyzer:
             self.alarm(st, i, "shift-poison", "shift amount %d" % k)
             raise Infeasible()
         exact = a.lin.scale(1 << k)
+        if "nsw" not in i.attrs:
+            self.uwrap(st, i, a, k, "shl")
         nn = st.rng(a)[0] >= 0
         st.env[i.res] = self.wrapfit(st, a.w, exact, "shl", i, min(64, a.tz + k), nn)
 
@@ -1899,6 +1960,12 @@ class Analyzer:
             cases.append([("lin", exact, thi + 1, None), ("src", exact)])
         raise Split(cases, "overflow")
 
+    def srcline(self, i):
+        d = self.mod.md.get(i.dbg) if i.dbg is not None else None
+        if d and d.get("k") == "loc":
+            return "%s:%s" % (d.get("line"), d.get("column", ""))
+        return i.line
+
     def count_zeros(self, st, i, leading, args):
         a = self.as_int(st, self.val(st, args[0]))
         zero_poison = args[1].val
@@ -1919,7 +1986,7 @@ class Analyzer:
                 return
             cases = []
             for bl in range(bl_lo, bl_hi + 1):
-                cases.append([("lin", ul, max(lo, 1 << (bl - 1)), min(hi, (1 << bl) - 1)), ("tag", ("bl", i.line, bl))])
+                cases.append([("lin", ul, max(lo, 1 << (bl - 1)), min(hi, (1 << bl) - 1)), ("tag", ("bl", self.srcline(i), bl))])
             raise Split(cases, "ctlz")
         # cttz
         if a.tz and False:
